@@ -68,7 +68,10 @@ type rvm struct {
 }
 
 // adopt completes a top-level CHECKPREDICATE whose verdict the reference left open.
-func (v *rvm) adopt(verdict string) {
+// The reference's gas is resynchronised with the implementation's (gas is compared across
+// layouts, not against the reference).
+func (v *rvm) adopt(verdict string, gasLeft int64) {
+	v.run = gasLeft
 	v.data = append(v.data, verdict)
 	v.pc = v.pendingNext
 	v.verdictUnknown = false
